@@ -11,12 +11,21 @@
 //!        skipped local hour), each with 0, 3, 6 and 9 fractional digits, through Zinc (`to_zinc_string` /
 //!        `from_str`), Hayson (`serde_json`), the C constructors and getters; plus Zinc / Hayson texts that
 //!        carry the offset of the OTHER side of the transition (local times inside the skipped / repeated hour)
+//!   `lmt H(tzid) <utc_secs> <nanos>`
+//!        one instant of a zone, ANY year (local mean time: the zone's offset has seconds, e.g. Amsterdam +0:19:32
+//!        until 1937): Zinc, Hayson and `parse_from_rfc3339_with_timezone` on the writer's text, plus texts with
+//!        the same wall-clock time and other offsets (truncated instead of rounded, one minute off, zero)
+//!   `offsweep`  offsets across chrono's whole range through `to_rfc3339_opts` (minute rounding, `Z`)
 //!   `names`   every zone id, every short name, and near-miss names through `parse_from_rfc3339_with_timezone`
 //!
 //! Correspondence requests (answered by Hs.Drv.C06):
 //!   `C06 offtext <off>`                                 -> `ok H(text)`    FixedOffset's Display text
 //!   `C06 rfc <local_secs> <ns> <off> DB`                -> DT              make_date_time
+//!   `C06 rfcoff <off>`                                  -> `ok H(text) <secs>`  the offset text of to_rfc3339_opts(_, true)
+//!                                                                           and the offset that text denotes (rounded)
 //!   `C06 withtz <utc_secs> <ns> H(name) DB`             -> DT              make_date_time_with_tz
+//!   `C06 fromtext <utc_secs> <ns> <written off> H(name) DB` -> DT          make_date_time_from_text
+//!                                                                           (parse_from_rfc3339_with_timezone)
 //!   `C06 zenc H(tzid) H(rfc3339 text)`                  -> `ok H(text)`    ToZinc for DateTime
 //!   `C06 jenc H(tzid) H(rfc3339 text)`                  -> `ok H(val) H(tz)|-`
 //!   `C06 zdec <local_secs> <ns> H(offtext) H(name)|- DB`-> DT              zinc parse_datetime at field level
@@ -24,15 +33,19 @@
 //!   `C06 capi <utc_secs> <ns> H(name) DB`               -> DT + local secs haystack_value_make_tz_datetime + getters
 //!   `C06 zones <count> <fnv of the sorted ids>`         -> `ok`            the translated zone list is the compiled one
 //! `DT ::= ok <utc_secs> <ns> <offset> H(tzid) H(short name) | err`
-//! `DB ::= k (H(tzid) <offset at the instant>)*k` — chrono-tz's answer for the zones the name could mean
-//!        (the model takes the zone offset function as a parameter).
+//! `DB ::= k (H(tzid) <instant> <offset at that instant>)*k` — chrono-tz's answer for the zones the name could mean
+//!        (the model takes the zone offset function as a parameter) at the instants the request can reach: the
+//!        instant of the text and, where the zone's offset there has seconds, that instant minus them.
 //!
 //! Oracles on the real code:
 //!   rfc_instant     parse_from_rfc3339 is Err or gives exactly the instant of the text
 //!   with_tz         parse_from_rfc3339_with_timezone(text, name) for a zone id or an unambiguous city name gives
 //!                   that instant in that zone
 //!   zinc_rt / json_rt   decode(encode(dt)) has the same instant, local offset and short zone name (zones with an
-//!                   unambiguous city name)
+//!                   unambiguous city name); `lmt` cases: demanded under the hypotheses of `C06_rt_subminute`
+//!                   (the zone has the same offset at the instant chrono reads from the text; the rounded offset
+//!                   is one a text can carry; Hayson: the rounded offset is accepted by parse_from_rfc3339)
+//!   text_rt         `lmt` cases: parse_from_rfc3339_with_timezone(writer's text, city name) likewise
 //!   capi            the C constructors/getters agree with the Rust value
 //!   stale_offset    a Zinc / Hayson text whose offset is not the zone's at that instant is Err or keeps the instant
 //!   etc_offset      `Etc/GMT-+N` has the constant offset +-N h, `UTC` 0 (the TzDb hypothesis `EtcOk` of the theorems)
@@ -81,8 +94,27 @@ fn by_name() -> &'static HashMap<String, Vec<Tz>> {
     })
 }
 
-/// `DB` for a name at an instant (UTC and the fixed zones are always included)
-fn db_for(names: &[&str], secs: i64) -> String {
+/// the offset as a text of minute precision carries it
+fn round_min(off: i64) -> i64 {
+    off.signum() * ((off.abs() + 30) / 60) * 60
+}
+
+/// `Z` or `+hh:mm` / `-hh:mm` -> seconds
+fn off_of_text(s: &str) -> Option<i64> {
+    if s == "Z" {
+        return Some(0);
+    }
+    let b = s.as_bytes();
+    if b.len() != 6 || b[3] != b':' || !(b[0] == b'+' || b[0] == b'-') {
+        return None;
+    }
+    let hh: i64 = s[1..3].parse().ok()?;
+    let mm: i64 = s[4..6].parse().ok()?;
+    Some(if b[0] == b'-' { -(hh * 3600 + mm * 60) } else { hh * 3600 + mm * 60 })
+}
+
+/// `DB` for a name at some instants (UTC and the fixed zones are always included)
+fn db_for(names: &[&str], instants: &[i64]) -> String {
     let mut zs: Vec<Tz> = vec![chrono_tz::UTC];
     for n in names {
         if let Some(v) = by_name().get(*n) {
@@ -98,8 +130,14 @@ fn db_for(names: &[&str], secs: i64) -> String {
     let mut seen = HashSet::new();
     let mut out = Vec::new();
     for z in zs {
-        if seen.insert(z.name()) {
-            out.push(format!("{} {}", h(z.name()), off_at(&z, secs)));
+        for x in instants.iter().copied() {
+            let o = off_at(&z, x);
+            // where the offset has seconds the reader looks at the instant minus them as well
+            for t in [x, x - (o - round_min(o))] {
+                if seen.insert((z.name(), t)) {
+                    out.push(format!("{} {t} {}", h(z.name()), off_at(&z, t)));
+                }
+            }
         }
     }
     format!("{} {}", out.len(), out.join(" "))
@@ -139,6 +177,8 @@ pub fn exec(_label: &str, input: &str, out: &mut CaseOut) {
     match cmd {
         "rfc" => exec_rfc(rest, out),
         "zone" => exec_zone(rest, out),
+        "lmt" => exec_lmt(rest, out),
+        "offsweep" => exec_offsweep(out),
         "names" => exec_names(out),
         "etc" => exec_etc(out),
         _ => out.fail("harness", format!("unknown C06 case `{cmd}`")),
@@ -169,12 +209,13 @@ fn exec_rfc(rest: &str, out: &mut CaseOut) {
     out.nontrivial = true;
     let local = secs + off as i64;
     out.req(format!("C06 offtext {off}"), format!("ok {}", h(&FixedOffset::east_opt(off).unwrap().to_string())));
+    req_rfcoff(off, out);
     // ---- parse_from_rfc3339 ------------------------------------------------------------------
     let r = DateTime::parse_from_rfc3339(&text);
     let etc: Vec<String> = etc_name(off as i64).into_iter().collect();
     let etc_refs: Vec<&str> = etc.iter().map(|s| s.as_str()).collect();
     out.req(
-        format!("C06 rfc {local} {ns} {off} {}", db_for(&etc_refs, secs)),
+        format!("C06 rfc {local} {ns} {off} {}", db_for(&etc_refs, &[secs])),
         match &r {
             Ok(dt) => dt_reply(dt),
             Err(_) => "err".into(),
@@ -205,15 +246,60 @@ fn exec_rfc(rest: &str, out: &mut CaseOut) {
     }
     // ---- parse_from_rfc3339_with_timezone ----------------------------------------------------
     if let Some(name) = name {
+        // the constructor from an instant and a name, as the C API and the Zinc `Z Name` path call it
+        if let Some(fixed) = FixedOffset::east_opt(off).and_then(|fo| fo.timestamp_opt(secs, ns).single()) {
+            let r = libhaystack::timezone::make_date_time_with_tz(&fixed, &name).map(DateTime::from);
+            out.req(
+                format!("C06 withtz {secs} {ns} {} {}", h(&name), db_for(&[&name], &[secs])),
+                match &r {
+                    Ok(dt) => dt_reply(dt),
+                    Err(_) => "err".into(),
+                },
+            );
+            check_with_tz("make_date_time_with_tz", &text, &name, secs, ns, &r, out);
+        }
+        // … and from a text: the offset as chrono reads it from the text is the written one
         let r = DateTime::parse_from_rfc3339_with_timezone(&text, &name);
-        out.req(
-            format!("C06 withtz {secs} {ns} {} {}", h(&name), db_for(&[&name], secs)),
-            match &r {
+        req_fromtext(&text, &name, &r, out);
+        // (1980-2060 every zone's offset is whole minutes: the instant of the text is kept as it is)
+        check_with_tz("parse_from_rfc3339_with_timezone", &text, &name, secs, ns, &r, out);
+    }
+}
+
+/// `C06 rfcoff`: the offset text of `to_rfc3339_opts(_, use_z = true)` and the offset that text denotes
+fn req_rfcoff(off: i32, out: &mut CaseOut) {
+    if let Some(t) = rfc_text(0, 0, off, 0) {
+        // `1970-01-01T00:00:00` (or the day before / after): 19 characters, then the offset
+        let suffix = &t[19..];
+        match off_of_text(suffix) {
+            Some(w) => out.req(format!("C06 rfcoff {off}"), format!("ok {} {w}", h(suffix))),
+            None => out.fail("harness", format!("offset text {suffix:?} of {t:?} is not Z or +-hh:mm")),
+        }
+    }
+}
+
+/// `C06 fromtext` for `parse_from_rfc3339_with_timezone(text, name)`: instant and written offset as chrono reads them
+fn req_fromtext(text: &str, name: &str, r: &Result<DateTime, String>, out: &mut CaseOut) {
+    match chrono::DateTime::parse_from_rfc3339(text) {
+        Ok(c) => out.req(
+            format!(
+                "C06 fromtext {} {} {} {} {}",
+                c.timestamp(),
+                c.timestamp_subsec_nanos(),
+                c.offset().local_minus_utc(),
+                h(name),
+                db_for(&[name], &[c.timestamp()])
+            ),
+            match r {
                 Ok(dt) => dt_reply(dt),
                 Err(_) => "err".into(),
             },
-        );
-        check_with_tz("parse_from_rfc3339_with_timezone", &text, &name, secs, ns, &r, out);
+        ),
+        Err(_) => {
+            if r.is_ok() {
+                out.fail("harness", format!("{text:?} is not RFC 3339 for chrono but parse_from_rfc3339_with_timezone accepts it"));
+            }
+        }
     }
 }
 
@@ -276,13 +362,7 @@ fn exec_names(out: &mut CaseOut) {
             names.dedup();
             for name in names {
                 let r = DateTime::parse_from_rfc3339_with_timezone(&text, &name);
-                out.req(
-                    format!("C06 withtz {secs} 0 {} {}", h(&name), db_for(&[&name], secs)),
-                    match &r {
-                        Ok(dt) => dt_reply(dt),
-                        Err(_) => "err".into(),
-                    },
-                );
+                req_fromtext(&text, &name, &r, out);
                 check_with_tz("parse_from_rfc3339_with_timezone", &text, &name, secs, 0, &r, out);
             }
         }
@@ -378,6 +458,229 @@ fn ho(s: &Option<String>) -> String {
     }
 }
 
+/// one timestamp through the Zinc and the Hayson writer and reader: the correspondence requests (`corr`) and
+/// the round-trip oracles (`demand_zinc`, `demand_json`: decode(encode(dt)) is the same instant, nanoseconds,
+/// local offset and city name)
+#[allow(clippy::too_many_arguments)]
+fn codec_probe(tz: &Tz, dt: &DateTime, secs: i64, corr: bool, do_json: bool, demand_zinc: bool, demand_json: bool, out: &mut CaseOut) {
+    let tzid = tz.name();
+    let ns = dt.timestamp_subsec_nanos();
+    let want = tuple(dt);
+    let rfc = dt.to_rfc3339_opts(SecondsFormat::AutoSi, true);
+    // the instants a reader can reach: the one chrono reads from the text (the written offset has minute
+    // precision) and the timestamp's own
+    let mut bases = vec![secs];
+    if let Ok(c) = chrono::DateTime::parse_from_rfc3339(&rfc) {
+        if c.timestamp() != secs {
+            bases.push(c.timestamp());
+        }
+    }
+    // ---- Zinc ------------------------------------------------------------------------
+    match Value::from(*dt).to_zinc_string() {
+        Err(e) => out.fail("zinc_rt", format!("to_zinc_string failed for {rfc} {tzid}: {e}")),
+        Ok(text) => {
+            let back = zinc_from_str(&text);
+            if corr {
+                out.req(format!("C06 zenc {} {}", h(tz.name()), h(&rfc)), format!("ok {}", h(&text)));
+                match split_zinc(&text) {
+                    Some((local, n2, offtxt, name)) => {
+                        let names: Vec<&str> = name.iter().map(|s| s.as_str()).collect();
+                        let mut at = bases.clone();
+                        at.push(local); // an offset text the reader does not take for an offset: the fields as UTC
+                        out.req(
+                            format!("C06 zdec {local} {n2} {} {} {}", h(&offtxt), ho(&name), db_for(&names, &at)),
+                            match &back {
+                                Ok(Value::DateTime(b)) => dt_reply(b),
+                                _ => "err".into(),
+                            },
+                        );
+                    }
+                    None => out.fail("zinc_text", format!("the writer's text {text:?} is not <date>T<time><offset>[ name]")),
+                }
+            }
+            if demand_zinc {
+                match &back {
+                    Ok(Value::DateTime(b)) if tuple(b) == want => {}
+                    Ok(Value::DateTime(b)) => out.fail(
+                        "zinc_rt",
+                        format!("{text:?} (zone {tzid}) read back as {:?}, written from {:?} (instant, nanos, offset, zone)", tuple(b), want),
+                    ),
+                    Ok(v) => out.fail("zinc_rt", format!("{text:?} read back as {v:?}")),
+                    Err(e) => out.fail("zinc_rt", format!("{text:?} (zone {tzid}) is rejected by the reader: {e}")),
+                }
+            }
+        }
+    }
+    // ---- Hayson ------------------------------------------------------------------------
+    if do_json {
+        match serde_json::to_string(&Value::from(*dt)) {
+            Err(e) => out.fail("json_rt", format!("serde_json::to_string failed for {rfc} {tzid}: {e}")),
+            Ok(json) => {
+                let back: Result<Value, _> = serde_json::from_str(&json);
+                if corr {
+                    let jv: serde_json::Value = serde_json::from_str(&json).unwrap_or(serde_json::Value::Null);
+                    let val = jv.get("val").and_then(|v| v.as_str()).unwrap_or("?").to_string();
+                    let tzm = jv.get("tz").and_then(|v| v.as_str()).map(|s| s.to_string());
+                    out.req(format!("C06 jenc {} {}", h(tz.name()), h(&rfc)), format!("ok {} {}", h(&val), ho(&tzm)));
+                    // the fields of `val` as chrono reads them: local time, nanoseconds, the written offset
+                    if let Ok(c) = chrono::DateTime::parse_from_rfc3339(&val) {
+                        let written = c.offset().local_minus_utc() as i64;
+                        let names: Vec<&str> = tzm.iter().map(|s| s.as_str()).collect();
+                        let mut all = names.clone();
+                        let etc: Vec<String> = etc_name(written).into_iter().collect();
+                        all.extend(etc.iter().map(|s| s.as_str()));
+                        out.req(
+                            format!(
+                                "C06 jdec {} {} {written} {} {}",
+                                c.timestamp() + written,
+                                c.timestamp_subsec_nanos(),
+                                ho(&tzm),
+                                db_for(&all, &[c.timestamp()])
+                            ),
+                            match &back {
+                                Ok(Value::DateTime(b)) => dt_reply(b),
+                                _ => "err".into(),
+                            },
+                        );
+                    }
+                }
+                if demand_json {
+                    match &back {
+                        Ok(Value::DateTime(b)) if tuple(b) == want => {}
+                        Ok(Value::DateTime(b)) => out.fail(
+                            "json_rt",
+                            format!("{json} (zone {tzid}) read back as {:?}, written from {:?} (instant, nanos, offset, zone)", tuple(b), want),
+                        ),
+                        Ok(v) => out.fail("json_rt", format!("{json} read back as {v:?}")),
+                        Err(e) => out.fail("json_rt", format!("{json} (zone {tzid}) is rejected by the reader: {e}")),
+                    }
+                }
+            }
+        }
+    }
+}
+
+/// a timestamp of ANY year, in particular where the zone's own offset has seconds
+fn exec_lmt(rest: &str, out: &mut CaseOut) {
+    let mut rd = Rd::new(rest);
+    let parsed = (|| Some((rd.hs()?, rd.num::<i64>()?, rd.num::<u32>()?)))();
+    let (tzid, secs, ns) = match parsed {
+        Some(x) => x,
+        None => return out.fail("harness", "unparsable C06 lmt input".into()),
+    };
+    let tz: Tz = match tzid.parse() {
+        Ok(z) => z,
+        Err(_) => return out.fail("harness", format!("{tzid} is not a zone id")),
+    };
+    let dt0 = match tz.timestamp_opt(secs, ns).single() {
+        Some(d) => d,
+        None => return out.fail("harness", format!("{secs}.{ns:09} is not an instant chrono represents")),
+    };
+    let dt = DateTime::from(dt0);
+    let want = tuple(&dt);
+    let o = want.2 as i64;
+    let unamb = unambiguous().contains(tz.name());
+    let short = gen::short_name(&tz);
+    out.nontrivial = true;
+    out.stat(if o % 60 != 0 { "lmt:offset_with_seconds" } else { "lmt:whole_minutes" });
+    out.req(format!("C06 offtext {o}"), format!("ok {}", h(&FixedOffset::east_opt(o as i32).unwrap().to_string())));
+    req_rfcoff(o as i32, out);
+    // ---- the hypotheses of C06_rt_subminute, read off the writer's text by chrono --------------------------
+    let rfc = dt.to_rfc3339_opts(SecondsFormat::AutoSi, true);
+    let read = chrono::DateTime::parse_from_rfc3339(&rfc).ok();
+    // the rounded offset is one a text can carry, and the zone has the same offset at the instant the text seems to denote
+    let stable = match &read {
+        Some(c) => off_at(&tz, c.timestamp()) == o,
+        None => false,
+    };
+    // Hayson: the written offset passes DateTime::parse_from_rfc3339 (a whole-hour offset needs its Etc/GMT zone)
+    let hayson_ok = match &read {
+        Some(c) => {
+            let w = c.offset().local_minus_utc() as i64;
+            w % 3600 != 0 || (-43200..=50400).contains(&w)
+        }
+        None => false,
+    };
+    out.stat(if stable { "lmt:offset_stable" } else { "lmt:offset_changes_within_the_rounding(no round trip demanded)" });
+    let demand = unamb && stable;
+    codec_probe(&tz, &dt, secs, true, true, demand, demand && hayson_ok, out);
+    // ---- parse_from_rfc3339_with_timezone on the writer's text -------------------------------------------------
+    for name in [short.as_str(), tz.name()] {
+        let r = DateTime::parse_from_rfc3339_with_timezone(&rfc, name);
+        req_fromtext(&rfc, name, &r, out);
+        if demand {
+            match &r {
+                Ok(b) if tuple(b) == want => {}
+                Ok(b) => out.fail(
+                    "text_rt",
+                    format!("parse_from_rfc3339_with_timezone({rfc:?}, {name:?}) = {:?}, written from {:?} (instant, nanos, offset, zone)", tuple(b), want),
+                ),
+                Err(e) => out.fail("text_rt", format!("parse_from_rfc3339_with_timezone({rfc:?}, {name:?}) is rejected: {e}")),
+            }
+        }
+    }
+    // ---- the same wall-clock time with other offsets: truncated, a minute off either way, zero, the sign flipped ----
+    let r0 = round_min(o);
+    let mut others = vec![(o / 60 * 60, secs + o), (r0 + 60, secs + o), (r0 - 60, secs + o), (0, secs + o), (-r0, secs + o)];
+    others.retain(|(w, _)| *w != r0);
+    others.sort();
+    others.dedup();
+    // … and the rounded offset on another wall-clock time: the instant itself (near the end of the period the
+    // zone's offset at the corrected instant is another one: the text is then taken at its word)
+    others.push((r0, secs + r0));
+    for (w, wall) in others {
+        let fo = match FixedOffset::east_opt(w as i32) {
+            Some(f) => f,
+            None => continue,
+        };
+        // local time `wall` at the offset w
+        let text = match fo.timestamp_opt(wall - w, ns).single() {
+            Some(d) => d.to_rfc3339_opts(SecondsFormat::AutoSi, true),
+            None => continue,
+        };
+        let r = DateTime::parse_from_rfc3339_with_timezone(&text, &short);
+        req_fromtext(&text, &short, &r, out);
+        let ztext = format!("{text} {short}");
+        let back = zinc_from_str(&ztext);
+        if let Some((local, n2, offtxt, name)) = split_zinc(&ztext) {
+            let names: Vec<&str> = name.iter().map(|s| s.as_str()).collect();
+            out.req(
+                format!("C06 zdec {local} {n2} {} {} {}", h(&offtxt), ho(&name), db_for(&names, &[wall - w, local])),
+                match &back {
+                    Ok(Value::DateTime(b)) => dt_reply(b),
+                    _ => "err".into(),
+                },
+            );
+        }
+        let json = format!(r#"{{"_kind":"dateTime","val":"{text}","tz":"{short}"}}"#);
+        let jback: Result<Value, _> = serde_json::from_str(&json);
+        let etc: Vec<String> = etc_name(w).into_iter().collect();
+        let mut all = vec![short.as_str()];
+        all.extend(etc.iter().map(|s| s.as_str()));
+        out.req(
+            format!("C06 jdec {wall} {ns} {w} {} {}", h(&short), db_for(&all, &[wall - w])),
+            match &jback {
+                Ok(Value::DateTime(b)) => dt_reply(b),
+                _ => "err".into(),
+            },
+        );
+    }
+}
+
+/// chrono's RFC 3339 offset text over the whole range of FixedOffset
+fn exec_offsweep(out: &mut CaseOut) {
+    out.nontrivial = true;
+    let mut offs: Vec<i32> = (-200..=200).collect();
+    offs.extend((-86399..=86399).step_by(97));
+    for m in [1172, 22286, -17762, -2670, -1521, 3599, 3600, 3601, 86339, 86340, 86369, 86370, 86399] {
+        offs.extend([m, -m, m + 1, -(m + 1), m - 1, -(m - 1)].into_iter().filter(|o: &i32| o.abs() < 86400));
+    }
+    for off in offs {
+        req_rfcoff(off, out);
+        out.req(format!("C06 offtext {off}"), format!("ok {}", h(&FixedOffset::east_opt(off).unwrap().to_string())));
+    }
+}
+
 fn exec_zone(rest: &str, out: &mut CaseOut) {
     let mut rd = Rd::new(rest);
     let parsed = (|| Some((rd.hs()?, rd.num::<i64>()?)))();
@@ -416,85 +719,15 @@ fn exec_zone(rest: &str, out: &mut CaseOut) {
             if qi == 0 && (want.2 % 60 != 0 || want.2 < -43200 || want.2 > 50400) {
                 out.fail("db_offset_range", format!("chrono-tz gives {tzid} the offset {} s at {secs}: not whole minutes within -12 h..+14 h", want.2));
             }
-            let rfc = dt.to_rfc3339_opts(SecondsFormat::AutoSi, true);
-            // ---- Zinc ------------------------------------------------------------------------
-            match Value::from(dt).to_zinc_string() {
-                Err(e) => out.fail("zinc_rt", format!("to_zinc_string failed for {rfc} {tzid}: {e}")),
-                Ok(text) => {
-                    let back = zinc_from_str(&text);
-                    if corr {
-                        out.req(format!("C06 zenc {} {}", h(tz.name()), h(&rfc)), format!("ok {}", h(&text)));
-                        match split_zinc(&text) {
-                            Some((local, n2, offtxt, name)) => {
-                                let names: Vec<&str> = name.iter().map(|s| s.as_str()).collect();
-                                out.req(
-                                    format!("C06 zdec {local} {n2} {} {} {}", h(&offtxt), ho(&name), db_for(&names, secs)),
-                                    match &back {
-                                        Ok(Value::DateTime(b)) => dt_reply(b),
-                                        _ => "err".into(),
-                                    },
-                                );
-                            }
-                            None => out.fail("zinc_text", format!("the writer's text {text:?} is not <date>T<time><offset>[ name]")),
-                        }
-                    }
-                    if unamb {
-                        match &back {
-                            Ok(Value::DateTime(b)) if tuple(b) == want => {}
-                            Ok(Value::DateTime(b)) => out.fail(
-                                "zinc_rt",
-                                format!("{text:?} (zone {tzid}) read back as {:?}, written from {:?} (instant, nanos, offset, zone)", tuple(b), want),
-                            ),
-                            Ok(v) => out.fail("zinc_rt", format!("{text:?} read back as {v:?}")),
-                            Err(e) => out.fail("zinc_rt", format!("{text:?} (zone {tzid}) is rejected by the reader: {e}")),
-                        }
-                    }
-                }
-            }
-            // ---- Hayson (one precision per probe; all of them on the correspondence probes) -------
-            if corr || qi == pi % 4 {
-                match serde_json::to_string(&Value::from(dt)) {
-                    Err(e) => out.fail("json_rt", format!("serde_json::to_string failed for {rfc} {tzid}: {e}")),
-                    Ok(json) => {
-                        let back: Result<Value, _> = serde_json::from_str(&json);
-                        if corr {
-                            let jv: serde_json::Value = serde_json::from_str(&json).unwrap_or(serde_json::Value::Null);
-                            let val = jv.get("val").and_then(|v| v.as_str()).unwrap_or("?").to_string();
-                            let tzm = jv.get("tz").and_then(|v| v.as_str()).map(|s| s.to_string());
-                            out.req(format!("C06 jenc {} {}", h(tz.name()), h(&rfc)), format!("ok {} {}", h(&val), ho(&tzm)));
-                            let names: Vec<&str> = tzm.iter().map(|s| s.as_str()).collect();
-                            let mut all = names.clone();
-                            let etc: Vec<String> = etc_name(want.2 as i64).into_iter().collect();
-                            all.extend(etc.iter().map(|s| s.as_str()));
-                            out.req(
-                                format!("C06 jdec {} {ns} {} {} {}", secs + want.2 as i64, want.2, ho(&tzm), db_for(&all, secs)),
-                                match &back {
-                                    Ok(Value::DateTime(b)) => dt_reply(b),
-                                    _ => "err".into(),
-                                },
-                            );
-                        }
-                        if unamb {
-                            match &back {
-                                Ok(Value::DateTime(b)) if tuple(b) == want => {}
-                                Ok(Value::DateTime(b)) => out.fail(
-                                    "json_rt",
-                                    format!("{json} (zone {tzid}) read back as {:?}, written from {:?} (instant, nanos, offset, zone)", tuple(b), want),
-                                ),
-                                Ok(v) => out.fail("json_rt", format!("{json} read back as {v:?}")),
-                                Err(e) => out.fail("json_rt", format!("{json} (zone {tzid}) is rejected by the reader: {e}")),
-                            }
-                        }
-                    }
-                }
-            }
+            // ---- Zinc, and Hayson (one precision per probe; all of them on the correspondence probes) ----
+            codec_probe(&tz, &dt, secs, corr, corr || qi == pi % 4, unamb, unamb, out);
             // ---- C API -----------------------------------------------------------------------------
             if corr || qi == (pi + 1) % 4 {
                 for name in [short.as_str(), tz.name()] {
                     let r = capi_roundtrip(secs, ns, name);
                     if corr {
                         out.req(
-                            format!("C06 capi {secs} {ns} {} {}", h(name), db_for(&[name], secs)),
+                            format!("C06 capi {secs} {ns} {} {}", h(name), db_for(&[name], &[secs])),
                             match &r {
                                 Ok((b, _, _, ls, _, _)) => format!("{} {ls}", dt_reply(b)),
                                 Err(_) => "err".into(),
@@ -539,7 +772,7 @@ fn exec_zone(rest: &str, out: &mut CaseOut) {
             if let Some((local, n2, offtxt, name)) = split_zinc(&text) {
                 let names: Vec<&str> = name.iter().map(|s| s.as_str()).collect();
                 out.req(
-                    format!("C06 zdec {local} {n2} {} {} {}", h(&offtxt), ho(&name), db_for(&names, x)),
+                    format!("C06 zdec {local} {n2} {} {} {}", h(&offtxt), ho(&name), db_for(&names, &[x])),
                     match &back {
                         Ok(Value::DateTime(b)) => dt_reply(b),
                         _ => "err".into(),
@@ -552,7 +785,7 @@ fn exec_zone(rest: &str, out: &mut CaseOut) {
             let mut all = vec![short.as_str()];
             all.extend(etc.iter().map(|s| s.as_str()));
             out.req(
-                format!("C06 jdec {} 0 {stale} {} {}", x + stale, h(&short), db_for(&all, x)),
+                format!("C06 jdec {} 0 {stale} {} {}", x + stale, h(&short), db_for(&all, &[x])),
                 match &jback {
                     Ok(Value::DateTime(b)) => dt_reply(b),
                     _ => "err".into(),
@@ -635,9 +868,57 @@ const TROUBLE: &[&str] = &[
     "US/Pacific",
 ];
 
+/// zones whose offset had seconds at some time (local mean time), for the cases around their transitions
+const LMT_ZONES: &[&str] = &[
+    "Europe/Amsterdam",
+    "Africa/Monrovia",
+    "Europe/Dublin",
+    "Asia/Kolkata",
+    "Europe/Paris",
+    "Asia/Krasnoyarsk",
+    "America/New_York",
+    "America/Caracas",
+    "Pacific/Honolulu",
+    "Asia/Manila",
+    "Africa/Abidjan",
+    "Europe/London",
+];
+
 pub fn generate(ctx: &mut Ctx) {
     ctx.case("etc", "etc");
     ctx.case("names", "names");
+    ctx.case("offsweep", "offsweep");
+    // ---- 0. offsets with seconds: OUTSIDE the stated quantifier (1980-2060); the model must agree with the code
+    //         and the round trip holds where the hypotheses of C06_rt_subminute do ----------------------------------
+    for dt in gen::lmt_datetimes() {
+        ctx.case("lmt", &format!("lmt {} {} {}", h(dt.timezone().name()), dt.timestamp(), dt.timestamp_subsec_nanos()));
+    }
+    let per_zone = ctx.n(4, 400) as usize;
+    for (zi, n) in LMT_ZONES.iter().enumerate() {
+        if ctx.quick() && zi >= 6 {
+            break;
+        }
+        let z: Tz = match n.parse() {
+            Ok(z) => z,
+            Err(_) => continue,
+        };
+        let id = h(z.name());
+        // transitions into or out of a period whose offset has seconds, 1800 .. 1980
+        let ts: Vec<i64> = transitions(&z, -5_364_662_400, Y1980)
+            .into_iter()
+            .filter(|t| off_at(&z, *t - 1) % 60 != 0 || off_at(&z, *t) % 60 != 0)
+            .collect();
+        let k = ts.len();
+        // the first ones (out of local mean time) and the last ones (into standard time)
+        for (i, t) in ts.into_iter().enumerate() {
+            if i >= per_zone / 2 && i + per_zone / 2 < k {
+                continue;
+            }
+            for d in [-61i64, -31, -30, -29, -1, 0, 1, 28, 29, 30, 31, 61] {
+                ctx.case("lmt_edge", &format!("lmt {id} {} {}", t + d, if d % 2 == 0 { 0 } else { 500_000_000 }));
+            }
+        }
+    }
     // ---- 1. RFC 3339 offsets -12:00 … +14:00 in 15 minute steps (and the rest of chrono's range, sampled) ----
     let fixed_instants: [(i64, u32); 8] = [
         (Y1980, 0),
